@@ -16,11 +16,11 @@ RULE = ('random ASYMMETRIC total rank assignments over 1-6 atoms (gaps, many tie
         'Non-trivial = ranking with >= 3 distinct ranks and a non-literal formula; distinct by hash(ranks, formula).')
 ASSUMPTIONS = ['rankings are total (every world ranked) when the laws are evaluated']
 TRUSTED = []
-FLOOR = {'quick': 2000, 'thorough': 20000}
+FLOOR = {'quick': 600, 'thorough': 6000}
 BUDGET = {'quick': 100, 'thorough': 1200}
 N = {'quick': 1800, 'thorough': 20000}
-REQUIRED = {'quick': {'formula_ranks': 5000, 'acceptances': 3000, 'marginalizations': 1500, 'conditionalizations': 1500,
-                      'tpo_roundtrips': 800, 'unsatisfiable_formulas': 100},
+REQUIRED = {'quick': {'formula_ranks': 1500, 'acceptances': 1000, 'marginalizations': 500, 'conditionalizations': 500,
+                      'tpo_roundtrips': 250, 'unsatisfiable_formulas': 50},
             'thorough': {'formula_ranks': 50000, 'acceptances': 30000, 'marginalizations': 15000,
                          'conditionalizations': 15000, 'tpo_roundtrips': 8000, 'unsatisfiable_formulas': 1000}}
 
